@@ -120,15 +120,15 @@ OnLadder(ev) ==
        \cup If(ev.b > ev.a, V("C14", "ReportedInUseExceedsLimit", ev))
        \cup If(ev.oc # "ok" /\ \E j \in DOMAIN ladder : ladder[j].oc = "ok" /\ ladder[j].a <= ev.a,
                V("C14", "RaisingLimitRefusesDecodableBatch", ev))
-       \cup If(ev.oc = "ok" /\ \E j \in DOMAIN ladder : ladder[j].oc = "ok" /\ ladder[j].x # ev.x,
-               V("C14", "LimitChangesDecodedTelemetry", ev))
   /\ UNCHANGED <<hdr, nextBid, sidType, sidSchema, live, retired, opened, lastIn, lastEnc>>
 
 OnDecode(ev) ==
   LET faulted == Len(ev.l) > 0
       healthy == ev.flag = 1
       dumped == Len(lastIn) > 0 \/ ev.b = 0
-      v == If(ev.oc = "panic", V("C07", "ConsumerPanic", ev))
+      tainted == ev.bid = 1        \* the batch continues a sub-stream the consumer has a hole in (outside C07's domain)
+      SameAs(lo, ln) == ln = ev.n /\ (Len(ev.out) = ev.n /\ Len(lo) = ln => Equivalent(lo, ev.out))
+      v == If(ev.oc = "panic" /\ (faulted \/ ~tainted), V("C07", "ConsumerPanic", ev))
            \cup If(ev.oc = "panic" /\ ~faulted /\ healthy, Vs(RTProps, "ConsumerPanicOnValidBatch", ev))
            \cup If(ev.oc = "error" /\ ~faulted /\ healthy, Vs(RTProps, "ValidBatchRejected", ev) \cup V("C07", "WellFormedBatchRejected", ev))
            \cup If(ev.oc = "ok" /\ ~faulted /\ healthy /\ ev.n # ev.b, Vs(RTProps, "ItemCountDiffers", ev))
@@ -140,7 +140,7 @@ OnDecode(ev) ==
                    \E j \in DOMAIN ladder : ladder[j].oc = "error" /\ ladder[j].flag = 0,
                    V("C14", "RefusalNotRecognisableAsMemoryLimit", ev))
            \cup If(ev.oc = "ok" /\ ~faulted /\ healthy /\
-                   \E j \in DOMAIN ladder : ladder[j].oc = "ok" /\ ladder[j].x # ev.x,
+                   \E j \in DOMAIN ladder : ladder[j].oc = "ok" /\ ~SameAs(ladder[j].out, ladder[j].n),
                    V("C14", "LimitChangesDecodedTelemetry", ev))
   IN /\ viol' = viol \cup v
      /\ UNCHANGED <<hdr, nextBid, sidType, sidSchema, live, retired, opened, lastIn, lastEnc, ladder>>
